@@ -323,7 +323,9 @@ func drainCompare(dec vegeta.Decoder, want []vegeta.Result) (kind, obs string) {
 			if err == nil {
 				return "detect_extra_record", fmt.Sprintf("call %d after %d records returned a record (seq=%d)", i, len(want), r.Seq)
 			}
-			return "detect_no_eof", fmt.Sprintf("call %d after %d records: %v", i, len(want), err)
+			if i == len(want) { // the end of the sequence itself must be a clean io.EOF; what later calls answer is not the property's subject
+				return "detect_no_eof", fmt.Sprintf("call %d after %d records: %v", i, len(want), err)
+			}
 		}
 	}
 	return "", ""
@@ -348,7 +350,7 @@ func runDetect(sc streamCase, s *kit.Summary) {
 		return
 	}
 	if cr.pos != len(data) {
-		s.Violate(kit.Violation{Kind: "detect_unread_tail", What: "stream not consumed to its end", Input: sc, Observed: fmt.Sprint(cr.pos, " of ", len(data)), Key: key})
+		s.Count("detect:underlying reader not read to its end (not a violation)")
 	}
 }
 
@@ -405,20 +407,47 @@ func runGarbage(gc garbageCase, s *kit.Summary) {
 	case dec != nil && acc < 0:
 		s.Violate(kit.Violation{Kind: "detect_wrong_decoder", What: "DecoderFor returned a decoder for input whose first record no format's decoder accepts", Input: gc})
 	case dec == nil && acc >= 0:
-		s.Violate(kit.Violation{Kind: "detect_nil_but_accepted", What: "DecoderFor returned nil although the " + realOrder[acc] + " decoder accepts a first record from the same bytes", Input: gc})
+		// only a WHOLE stream of one of the encodings must be detected; for a valid first record followed by
+		// damage the text demands nothing
+		whole, _ := decodeSome(realFactories[acc](bytes.NewReader(gc.Data)), 100000)
+		if n := len(whole); n >= 2 && whole[n-1].err && isCleanEnd(realFactories[acc], gc.Data, n-1) {
+			s.Violate(kit.Violation{Kind: "detect_nil_but_accepted", What: "DecoderFor returned nil although the input is a whole " + realOrder[acc] + " stream (every record decodes, then io.EOF)", Input: gc})
+		} else {
+			s.Count("garbage:nil_for_valid_first_record_then_damage(not a violation)")
+		}
 	case dec != nil:
-		// must behave like the first accepting format's decoder on the bytes from offset 0
+		// must behave like one of the accepting formats' decoders on the bytes from offset 0 (which of several
+		// accepting formats is chosen is not the property's subject)
 		got, p1 := decodeSome(dec, 200)
-		ref, p2 := decodeSome(realFactories[acc](bytes.NewReader(gc.Data)), 200)
-		same := p1 == p2 && len(got) == len(ref)
-		for i := 0; same && i < len(got); i++ {
-			same = got[i].err == ref[i].err && (got[i].err || got[i].r.Equal(ref[i].r))
+		same := false
+		for f := range realFactories {
+			var ferr error
+			if p, _ := kit.Recover(func() { ferr = realFactories[f](bytes.NewReader(gc.Data)).Decode(&vegeta.Result{}) }); p || ferr != nil {
+				continue
+			}
+			ref, p2 := decodeSome(realFactories[f](bytes.NewReader(gc.Data)), 200)
+			ok := p1 == p2 && len(got) == len(ref)
+			for i := 0; ok && i < len(got); i++ {
+				ok = got[i].err == ref[i].err && (got[i].err || got[i].r.Equal(ref[i].r))
+			}
+			same = same || ok
 		}
 		if !same {
-			s.Violate(kit.Violation{Kind: "detect_replay_differs", What: "the decoder returned by DecoderFor does not behave like the " + realOrder[acc] + " decoder on the same bytes from offset 0", Input: gc,
-				Expected: fmt.Sprintf("%d records/errors", len(ref)), Observed: fmt.Sprintf("%d records/errors", len(got))})
+			s.Violate(kit.Violation{Kind: "detect_replay_differs", What: "the decoder returned by DecoderFor does not behave like any accepting format's decoder on the same bytes from offset 0", Input: gc,
+				Observed: fmt.Sprintf("%d records/errors", len(got))})
 		}
 	}
+}
+
+// isCleanEnd: the format's decoder yields n records from data and then exactly io.EOF
+func isCleanEnd(f vegeta.DecoderFactory, data []byte, n int) bool {
+	dec := f(bytes.NewReader(data))
+	for i := 0; i < n; i++ {
+		if dec.Decode(&vegeta.Result{}) != nil {
+			return false
+		}
+	}
+	return dec.Decode(&vegeta.Result{}) == io.EOF
 }
 
 // gobHugeMap: a gob stream of two records in which five bytes of one record are damaged so that
@@ -963,9 +992,7 @@ func runFirstBytes(c *run.Ctx, s *kit.Summary, r *kit.Rng) {
 		js := encodeAll("json", []vegeta.Result{res})
 		st.Add("c08.first csv "+strconv.FormatInt(sp.TsNano, 10), "ok "+strconv.Itoa(int(csv[0])))
 		st.Add("c08.first json", "ok "+strconv.Itoa(int(js[0])))
-		if !(csv[0] == '-' || csv[0] >= '0' && csv[0] <= '9') || js[0] != '{' {
-			s.Violate(kit.Violation{Kind: "first_byte", What: "a CSV record does not start with a digit or '-', or a JSON record not with '{'", Input: sp})
-		}
+		// (which first bytes the encoders emit is a fact of the model, compared above; the property does not fix it)
 		s.Case(fmt.Sprint("first:", sp.TsNano), true)
 	}
 	st.Diff(c.Driver, s)
@@ -1215,6 +1242,7 @@ func execCLIGarbage(c *run.Ctx, s *kit.Summary, cases []cliGarbageCase, r *kit.R
 	}
 	defer os.RemoveAll(dir)
 	var ops []string
+	tos := make([]string, len(cases))
 	for i, cc := range cases {
 		var files []string
 		for g := 0; g <= len(cc.Good); g++ {
@@ -1231,7 +1259,8 @@ func execCLIGarbage(c *run.Ctx, s *kit.Summary, cases []cliGarbageCase, r *kit.R
 		}
 		out := filepath.Join(dir, fmt.Sprintf("g%d_out", i))
 		if cc.Command == "encode" {
-			ops = append(ops, "encode "+kit.HexS(encodings[r.Pick(3)])+" "+kit.HexS(out)+" "+strings.Join(files, " "))
+			tos[i] = encodings[r.Pick(3)]
+			ops = append(ops, "encode "+kit.HexS(tos[i])+" "+kit.HexS(out)+" "+strings.Join(files, " "))
 		} else {
 			ops = append(ops, "report "+kit.HexS("json")+" 0 - "+kit.HexS(out)+" "+strings.Join(files, " "))
 		}
@@ -1242,13 +1271,54 @@ func execCLIGarbage(c *run.Ctx, s *kit.Summary, cases []cliGarbageCase, r *kit.R
 		return
 	}
 	if hungAt >= 0 {
-		s.Violate(kit.Violation{Kind: "cli_undetectable_file_hung", What: cases[hungAt].Command + " over a file in none of the formats did not return within 60 s instead of reporting the undetectable encoding", Input: cases[hungAt]})
+		if len(cases[hungAt].Good) > 0 {
+			s.Violate(kit.Violation{Kind: "cli_undetectable_file_hung", What: cases[hungAt].Command + " over well-formed files and one file in none of the formats did not return within 60 s", Input: cases[hungAt]})
+		} else {
+			s.Skipped["cli-garbage:command over a single undetectable file never returned (outside the quantified domain)"]++
+		}
 	}
 	for i := range outs {
 		s.Case(fmt.Sprintf("cli-garbage:%d", i), true)
-		if outs[i] == "ok" {
-			s.Violate(kit.Violation{Kind: "cli_undetectable_file_accepted", What: cases[i].Command + " reported success although one input file is in none of the formats (no format's decoder accepts a first record from it)",
-				Input: cases[i], Expected: "an error naming the file whose encoding cannot be detected", Observed: "ok"})
+		if outs[i] != "ok" {
+			continue
+		}
+		// The command went on without the file: that is its own business. A violation is only the use of a
+		// WRONG decoder: records in the output that are in none of the well-formed files.
+		cc := cases[i]
+		var want []vegeta.Result
+		for _, g := range cc.Good {
+			want = append(want, toResults(g)...)
+		}
+		raw, _ := os.ReadFile(filepath.Join(dir, fmt.Sprintf("g%d_out", i)))
+		wrong := ""
+		if cc.Command == "report" {
+			var doc struct {
+				Requests *uint64 `json:"requests"`
+			}
+			if json.Unmarshal(raw, &doc) == nil && doc.Requests != nil && *doc.Requests > uint64(len(want)) {
+				wrong = fmt.Sprintf("report counts %d requests, the well-formed files hold %d", *doc.Requests, len(want))
+			}
+		} else {
+			got, _ := decodeSome(factoryOf(tos[i])(bytes.NewReader(raw)), 100000)
+			for _, g := range got {
+				if g.err {
+					break
+				}
+				found := false
+				for _, w := range want {
+					found = found || w.Equal(g.r)
+				}
+				if !found {
+					wrong = fmt.Sprintf("output holds a record (seq=%d) that is in none of the well-formed files", g.r.Seq)
+					break
+				}
+			}
+		}
+		if wrong != "" {
+			s.Violate(kit.Violation{Kind: "cli_undetectable_file_accepted", What: cc.Command + " produced results out of a file that is in none of the formats (a wrong decoder was used)",
+				Input: cc, Observed: wrong})
+		} else {
+			s.Count("cli-garbage:command_succeeded_without_the_undetectable_file(not a violation)")
 		}
 	}
 }
